@@ -54,6 +54,65 @@ def strategy(tier):
     return _case(tier)
 
 
+# ---- "the pid can be bound again only after delete_object(pid) has COMPLETED" ---------------------------------------
+# delete_object(p) is parked before each of its boundaries in turn (it has not returned); a second thread then calls
+# store_object(p, ..) / tag_object(p, ..) and runs until it returns or blocks; a third thread then stores a NEW metadata
+# document for p and completes; only then the delete continues.  If the second call RETURNED NORMALLY, the delete had - as far
+# as any caller can tell - completed before it: nothing the delete still does may touch what was stored for the new binding.
+# (Being rejected - the pinned tree answers "already in progress" - or having to wait is fine and says nothing.)
+INFLIGHT_BASE = {"cfg": {"algo": "SHA-256", "depth": 2, "width": 2}, "contents": [{"hex": "5858585858"}, {"hex": "5959"}],
+                 "docs": [{"hex": "6d30"}, {"hex": "6d31"}, {"hex": "6e6577206d65746164617461"}]}
+INFLIGHT_STARTS = {
+    "sole-with-metadata": [{"op": "store", "pid": "p", "c": 0}, {"op": "smeta", "pid": "p", "fmt": None, "d": 0},
+                           {"op": "smeta", "pid": "p", "fmt": "f2", "d": 1}],
+    "shared-with-metadata": [{"op": "store", "pid": "p", "c": 0}, {"op": "store", "pid": "q", "c": 0},
+                             {"op": "smeta", "pid": "p", "fmt": None, "d": 0}],
+    "sole": [{"op": "store", "pid": "p", "c": 0}],
+}
+INFLIGHT_SECOND = [{"op": "store", "pid": "p", "c": 1}, {"op": "store", "pid": "p", "c": 0}, {"op": "tag", "pid": "p", "cid": {"of": 1}}]
+INFLIGHT_THIRD = {"op": "smeta", "pid": "p", "fmt": "f-new", "d": 2}
+
+
+def enumerate_cases(tier):
+    for sname in INFLIGHT_STARTS:
+        for n, second in enumerate(INFLIGHT_SECOND):
+            yield dict(INFLIGHT_BASE, family="inflight-delete", start_name=sname, start=INFLIGHT_STARTS[sname], second=n, ops=[])
+
+
+def case_cost(case):
+    return 8
+
+
+def _inflight_case(case, ctx):
+    from .. import conc, fsi, sched
+    fsi.install()
+    world = conc.World(case, ctx)
+    calls = [{"op": "delete", "pid": "p"}, INFLIGHT_SECOND[case["second"]], INFLIGHT_THIRD]
+    cfg = world.cfg
+    key = (cfg.H("p"), cfg.H("p" + INFLIGHT_THIRD["fmt"]))
+    import hashlib
+    want = hashlib.sha256(world.docs[INFLIGHT_THIRD["d"]]).hexdigest()
+    ub = sched.UNTIL_BLOCKED
+    ctx.evaluations -= 1
+    k = 1
+    while k < 120:
+        pre = [(k, 0), (ub, 0), (0, 0), (ub, 0), (0, 0)]
+        ex = conc.run_program(world, calls, [0, 1, 2], pre)
+        if ex.used_preemptions == 0:
+            break                       # the delete finished before its k-th boundary
+        ctx.count()
+        second_ok = ex.outcomes[1][0] == "ok" and not ex.waited[1]
+        if second_ok and ex.outcomes[2][0] == "ok" and not ex.deadlock and ex.alpha["metadata"].get(key) != want:
+            ctx.violation("rebinding-before-delete-completed", f"start={case['start_name']}: delete_object(p) parked before its boundary "
+                          f"#{k}; {conc.op_pattern(calls[1], world)}:p returned normally (so the delete had taken effect), a metadata "
+                          f"document stored for p after that is gone once the delete has finished: outcomes {ex.outcomes}, documents "
+                          f"{sorted((a[:8], b[:8]) for a, b in ex.alpha['metadata'])}", {"family": "inflight-delete", "second": calls[1]["op"]})
+        ctx.classify("inflight-delete second call: " + ("blocked" if ex.waited[1] else ex.outcomes[1][0] + ":" + str(ex.outcomes[1][1:2])))
+        ctx.nontrivial(["inflight-delete", case["start_name"], case["second"], k, ex.outcomes[1][:2]])
+        k += 1
+    ctx.sample({"family": "in-flight delete excludes re-binding", "start": case["start_name"], "second": calls[1], "park_points": k - 1})
+
+
 def _retrieves(run, pids):
     out = {}
     for p in pids:
@@ -63,6 +122,8 @@ def _retrieves(run, pids):
 
 
 def run_case(case, ctx):
+    if case.get("family") == "inflight-delete":
+        return _inflight_case(case, ctx)
     run = seq.Run(case, ctx)
     PIDS = case.get("pids") or globals()["PIDS"]
     if seq.PIDFILE[0] in PIDS:
